@@ -39,7 +39,13 @@ def run_family(facts, fam, tier):
     kindpart = fam[fam.index("[") + 1:]
     dkey = kindpart[:kindpart.index("]")]
     what = kindpart[kindpart.index("][") + 2:-1]
-    rs = C09.run_one(c, facts, dkey, fam.startswith("call["), what, C09.TIMEOUT[tier], "C07", CLAUSES)
+    extra = None
+    if ":" in what and not fam.startswith("call["):
+        what, opk = what.split(":")
+        fld = C09.OPSPLIT[what][0]
+        U = c["U"]
+        extra = lambda path, nd: path.assume(U.is_kind(opk, U.field(what, fld, nd)))
+    rs = C09.run_one(c, facts, dkey, fam.startswith("call["), what, C09.TIMEOUT[tier], "C07", CLAUSES, extra_pre=extra)
     # safety.raise belongs to C12; here only structural clauses decide
     return [r for r in rs if r["clause"] != "safety.raise"]
 
